@@ -41,7 +41,7 @@ RULE = ("reciprocal lattice of a lattice from 11 families (+rotation; cell edges
         "<= 48 points (1/3 uniform n x n x n), k-points listed in a drawn permutation, exact or rounded to 6/8/10 "
         "decimals; object built by from_kpoints or (1/3) read back by from_nnkp from a file whose neighbour list is written in a "
         "drawn order; non-trivial = at least two shells chosen or a non-orthogonal lattice; distinctness by the full case")
-ASSUMPTIONS = ["default tolerances of from_kpoints: kmesh_tol=1e-7, bk_complete_tol=1e-5, search_supercell=2",
+ASSUMPTIONS = ["default tolerances of from_kpoints: kmesh_tol=1e-7, bk_complete_tol=1e-5, search_supercell=2; of from_nnkp: kmesh_tol=1e-5 (shell lengths closer than 1e-4 are a tie for the .nnkp route)",
                "k-points in reduced coordinates inside [0,1) as documented",
                "a shell = all mesh vectors of one length; lengths within 1e-9 relative are 'equal', lengths that differ "
                "by 1e-9..1e-6 are a tie (Inconclusive)",
@@ -165,6 +165,12 @@ def check(case):
 
     if case.get("route") == "nnkp":
         bg0 = np.array(bk.bk_grid)
+        # from_nnkp groups the listed vectors into shells with its own default kmesh_tol = 1e-5 (from_kpoints: 1e-7):
+        # chosen shells whose lengths differ by less than ten times that are a threshold tie for the reader
+        ln0 = np.sort(np.sqrt(((bg0 @ basis) ** 2).sum(axis=1)))
+        dl = np.diff(ln0)
+        if np.any((dl > 1e-9) & (dl < 1e-4)):
+            raise Inconclusive("chosen shells closer in length than 10 x kmesh_tol of from_nnkp (tie)")
         order = rng_of(case["nbseed"]).permutation(len(bg0))
         file_b = bg0[order]
         index_of = {tuple(int(x) for x in k): i for i, k in enumerate(kint)}
